@@ -1,5 +1,4 @@
 # C15 — queues, ring buffers and unbounded channels are loss-free FIFOs
-import json
 import vlib
 
 TRUSTED = [
@@ -7,27 +6,13 @@ TRUSTED = [
     "Go harness + generators + FIFO monitor (harness/cmd/c15ring, harness/vh), bin/check, lib/vlib.py",
     "Go runtime, slices/copy semantics",
 ]
+HARNESSES = [{"pkg": "c15ring", "sub": "ring"}]
 
 
 def check(ctx):
-    ctx.trusted += TRUSTED
-    bad = vlib.forbidden_scan()
-    if bad:
-        ctx.proof_errors.append("forbidden constructs: %s" % bad[:5])
-    if vlib.coq_make(ctx):
-        vlib.coq_properties(ctx, "C15/Properties.v")
-    b = vlib.go_build(ctx, "c15ring")
-    vlib.run_harness(ctx, b, "ring")
-    if ctx.tier == "thorough":
-        vlib.coqchk(ctx, ["MV.C15.Properties"])
-    return vlib.finish(ctx, "make -C coq && coqc -Q coq MV coq/C15/Properties.v (Print Assumptions per theorem); "
-                            "go build harness/cmd/c15ring against /repo; coqc <cases shards> (vm_compute)", "DESIGN.md §6 C15")
+    return vlib.standard_check(ctx, ["C15"], "C15/Properties.v", HARNESSES, TRUSTED, "DESIGN.md §6 C15",
+                               chk_modules=["MV.C15.Properties"])
 
 
 def replay(ctx, path):
-    b = vlib.go_build(ctx, "c15ring")
-    d = json.load(open(path))
-    rc, out, err, _ = vlib.sh([b, "-replay", path])
-    print(out.strip())
-    print(err.strip())
-    return rc
+    return vlib.standard_replay(ctx, {"ring": "c15ring"}, path)
